@@ -213,7 +213,7 @@ def exStep : Step := fun v => match v with | .obj i => .ok (.obj (i * 8 + 1)) | 
 /-- `@validate(Parameter('b', validators=[V]), Parameter('a', validators=[V]))  def f(a, b=<obj 50>)` (names: a = 2, b = 3) -/
 def exCfg : Cfg :=
   { ps := [⟨3, true, none, none, none, [exStep], false⟩, ⟨2, true, none, none, none, [exStep], false⟩],
-    sig := ⟨[⟨2, none⟩, ⟨3, some (.obj 50)⟩], false, []⟩, strict := true, ignoreInput := false, req := .noContext }
+    sig := { pos := [⟨2, none⟩, ⟨3, some (.obj 50)⟩], varArgs := false, kwOnly := [] }, strict := true, ignoreInput := false, req := .noContext }
 
 -- f(100, b=101), f(b=101, a=100), f(100, 101) in ARGS mode (the region of the former defect) and in the keyword modes
 example : runValidate exCfg false .args [.obj 100] [(3, .obj 101)] = .ok ⟨[(2, .obj 801), (3, .obj 809)], []⟩ := by rfl
@@ -239,7 +239,7 @@ example : runValidate exCfg2 false .kwWithNone [.obj 100] [(3, .none)] = .ok ⟨
     default (and Python itself would refuse the keyword). -/
 def exCfgSelf : Cfg :=
   { ps := [⟨3, false, none, none, none, [], false⟩],
-    sig := ⟨[⟨2, some (.obj 60)⟩, ⟨3, some (.obj 50)⟩], false, []⟩, strict := false, ignoreInput := false, req := .noContext }
+    sig := { pos := [⟨2, some (.obj 60)⟩, ⟨3, some (.obj 50)⟩], varArgs := false, kwOnly := [] }, strict := false, ignoreInput := false, req := .noContext }
 example : runValidate exCfgSelf false .kwWithNone [] [(selfName, .obj 5)] = .ok ⟨[(2, .obj 5), (3, .obj 50)], []⟩ := by rfl
 example : byName exCfgSelf .kwWithNone [] [(selfName, .obj 5)] = .ok [(2, .obj 60), (3, .obj 50)] := by rfl
 
